@@ -1,6 +1,7 @@
 package drive
 
 import (
+	abci "github.com/cometbft/cometbft/abci/types"
 	"bytes"
 	"fmt"
 	"math/rand"
@@ -220,6 +221,39 @@ func relayerHistory(w *tracew.Writer, seed int64, run, depth int, period, timeou
 		vc, err := s.voteCtx()
 		if err != nil {
 			return err
+		}
+		// admission probes (C10): a relayer transaction signed by some identity is offered to the mempool (CheckTx) at the
+		// committed state; it is admitted iff its signer is the CURRENT relayer proposer - also while that proposer is queued for
+		// removal, right after an election, and for members that are voters only
+		if s.C.Height >= s.C.InitialHeight && s.RelW != nil {
+			admittedBy := map[int]uint64{} // the check state remembers the sequence numbers it has admitted since the last commit
+			for k := 0; k < 2; k++ {
+				id := 1 + s.R.Intn(7)
+				if k == 0 && s.R.Intn(2) == 0 {
+					id = vc.Proposer
+				} else if len(vc.Voters) > 0 && s.R.Intn(2) == 0 {
+					id = vc.Voters[s.R.Intn(len(vc.Voters))]
+				}
+				m := s.member(id)
+				_, accSeq, hasAcc := s.C.Account(m.Addr)
+				if !hasAcc {
+					continue
+				}
+				msg := &relayertypes.MsgAcceptProposerRequest{Proposer: m.Bech, Epoch: vc.Epoch}
+				accSeq += admittedBy[id]
+				bz, err := s.C.SignTx(m.Priv, []sdk.Msg{msg}, sim.SignOpts{Seq: &accSeq})
+				if err != nil {
+					return err
+				}
+				res, err := s.C.App.CheckTx(&abci.RequestCheckTx{Tx: bz, Type: abci.CheckTxType_New})
+				if err != nil {
+					return err
+				}
+				if res.Code == 0 {
+					admittedBy[id]++
+				}
+				s.emit(s.RelW, "probe", Ev{"signer": id, "admitted": res.Code == 0, "log": short(res.Log)})
+			}
 		}
 		{ // sign one vote per block and withhold it
 			signers := []int{vc.Proposer}
